@@ -120,11 +120,11 @@ def harness(scn='fresh'):
         def from_response(eng, args, kwargs):
             return N.RpcError(('from_response', id(cur['resps']), args[-1].i))
         e.stub(requests.request, do_request)
-        e.stub(N.sleep, do_sleep)
+        e.stub(time.sleep, do_sleep)          # the function object, however node.py imports it (`from time import sleep` / `import time`)
         e.stub(N._is_transient_response, is_transient)
         e.stub(N.RpcError.__dict__['from_response'].__func__, from_response)
         e.stub(json.dumps, lambda eng, a, k: Opaque('<json>'))
-        e.stub(N.pformat, lambda eng, a, k: Opaque('<pformat>'))
+        e.stub(pprint.pformat, lambda eng, a, k: Opaque('<pformat>'))
         node = Obj(N.RpcNode)
         node.f['uri'] = ['http://node']
         node.f['headers'] = {}
@@ -213,8 +213,11 @@ def native(case):
 
         def json(self):
             return [{'id': 'node.x', 'kind': 'temporary' if self.tr else 'permanent'}]
-    orig_req, orig_sleep = requests.request, N.sleep
+    from props.C26_R import patched_sleep
+    orig_req = requests.request
     node = N.RpcNode('http://node')
+    cur_slept = [None]
+    ps = patched_sleep(N, lambda d: cur_slept[0].append(d)).__enter__()
 
     def one(seq, method):
         sent, slept = [], []
@@ -228,7 +231,7 @@ def native(case):
                 raise r.exc
             return r
         requests.request = fake
-        N.sleep = lambda d: slept.append(d)
+        cur_slept[0] = slept
         out = exc = None
         try:
             out = node.request(method, 'x')
@@ -261,7 +264,8 @@ def native(case):
         bad, info = one(seq, method)
         return bad, ('after two earlier requests on the same node: ' if reused else '') + info
     finally:
-        requests.request, N.sleep = orig_req, orig_sleep
+        requests.request = orig_req
+        ps.__exit__()
 
 
 def replay(case):
